@@ -126,6 +126,9 @@ type toolSpec struct {
 	Fail map[string]int
 	// Empty: arguments that are answered with the empty string
 	Empty map[string]bool
+	// SelfCB: the tool fires its own callbacks (IsCallbacksEnabled() == true), the way
+	// instrumented components do; the tools node then must not wrap it a second time
+	SelfCB bool
 }
 
 type baseTool struct {
@@ -167,7 +170,20 @@ func (b *baseTool) Info(ctx context.Context) (*schema.ToolInfo, error) {
 	return &schema.ToolInfo{Name: b.spec.Name, Desc: "simulated tool " + b.spec.Name}, nil
 }
 
-func (b *baseTool) run(ctx context.Context, args string, streaming bool) (string, error) {
+// IsCallbacksEnabled: see toolSpec.SelfCB.
+func (b *baseTool) IsCallbacksEnabled() bool { return b.spec.SelfCB }
+
+func (b *baseTool) run(ctx context.Context, args string, streaming bool) (out string, err error) {
+	if b.spec.SelfCB {
+		ctx = callbacks.OnStart(ctx, args)
+		defer func() {
+			if err != nil {
+				callbacks.OnError(ctx, err)
+			} else {
+				callbacks.OnEnd(ctx, out)
+			}
+		}()
+	}
 	e := b.env
 	id := compose.GetToolCallID(ctx)
 	e.calls = append(e.calls, toolCallRec{Tag: tagOf(ctx), Name: b.spec.Name, Args: args, CallID: id, Seq: e.nextSeq()})
@@ -177,6 +193,11 @@ func (b *baseTool) run(ctx context.Context, args string, streaming bool) (string
 	e.s.Log(fmt.Sprintf("tool %s %s(%s) id=%s", tagOf(ctx), b.spec.Name, args, id))
 	for i := 0; i < b.spec.Yields; i++ {
 		e.s.Yield("tool:" + b.spec.Name)
+	}
+	// a well-behaved tool honours its context (nobody cancels it while the call is in progress)
+	if err := ctx.Err(); err != nil {
+		e.faults["tool_saw_cancelled_context"]++
+		return "", err
 	}
 	f := b.spec.Fail[args]
 	if f == 3 && !streaming {
@@ -226,6 +247,11 @@ func (b *baseTool) stream(ctx context.Context, args string) (*schema.StreamReade
 	e.s.Go(fmt.Sprintf("toolprod:%s:%s#%d", tagOf(ctx), b.spec.Name, e.prodN), func() {
 		defer sw.Close()
 		for i, c := range chunks {
+			if err := ctx.Err(); err != nil {
+				e.faults["tool_saw_cancelled_context"]++
+				sw.Send("", err)
+				return
+			}
 			if mid && i == len(chunks)-1 {
 				e.faults["tool_error_item_mid_stream"]++
 				// (every other tool's error item wraps io.EOF)
@@ -410,6 +436,12 @@ func runC17(t *kernel.Tape, opt core.Opts) *core.Outcome {
 	inGraph := t.PlanBool(50)
 	stream := t.PlanBool(50)
 	globalCB := t.PlanBool(40) // a callback handler installed globally only
+	// some tools are instrumented components that fire their own callbacks
+	for _, sp := range specs {
+		if sp.Kind != 3 && t.PlanBool(25) {
+			sp.SelfCB = true
+		}
+	}
 	// an explicit, empty tool list given with the call: every call then names an unknown tool
 	emptyList := t.PlanBool(6)
 	if emptyList {
@@ -636,7 +668,11 @@ func runC17(t *kernel.Tape, opt core.Opts) *core.Outcome {
 func specsStr(specs []*toolSpec) string {
 	var l []string
 	for _, s := range specs {
-		l = append(l, fmt.Sprintf("%s/k%d/y%d/c%d", s.Name, s.Kind, s.Yields, s.Cut))
+		self := ""
+		if s.SelfCB {
+			self = "/selfcb"
+		}
+		l = append(l, fmt.Sprintf("%s/k%d/y%d/c%d%s", s.Name, s.Kind, s.Yields, s.Cut, self))
 	}
 	return strings.Join(l, ",")
 }
@@ -657,7 +693,7 @@ var agentStub = []string{"tools (harness tasks that yield, stream in chunks, fai
 func init() {
 	core.Register(&core.Profile{
 		RaceQuick: 200, RaceThorough: 3000, ID: "C17", Engine: "agentsim", Quick: 4000, Thorough: 100000, ThoroughSeeds: 3, Run: runC17,
-		Rule: "each run draws 2-4 tools (invokable-only, streamable-only, both; yields, chunkings), an assistant message with 1-5 calls (repeated tools, unknown names), an unknown-tool handler or none, 0-2 failing calls (error, panic, error item mid-stream), direct call or inside a graph, Invoke or Stream, and one schedule (tool completion order); oracle: N answers in call order with the right ids and outputs, concat(Stream)=Invoke, failures and unknown names reported, every call executed exactly once with its own call id; tools built with utils.InferTool (pointer request type, used after yielding); calls answered with the empty string; in 2 of 5 runs a callback handler installed globally only, which must see one start and one end per tool call when the node runs inside a graph; 1 run in 16 passes an explicit, empty tool list with the call (every call is then unknown); every other tool's mid-stream error item wraps io.EOF",
+		Rule: "each run draws 2-4 tools (invokable-only, streamable-only, both; yields, chunkings), an assistant message with 1-5 calls (repeated tools, unknown names), an unknown-tool handler or none, 0-2 failing calls (error, panic, error item mid-stream), direct call or inside a graph, Invoke or Stream, and one schedule (tool completion order); oracle: N answers in call order with the right ids and outputs, concat(Stream)=Invoke, failures and unknown names reported, every call executed exactly once with its own call id; tools built with utils.InferTool (pointer request type, used after yielding); calls answered with the empty string; in 2 of 5 runs a callback handler installed globally only, which must see one start and one end per tool call when the node runs inside a graph; 1 run in 16 passes an explicit, empty tool list with the call (every call is then unknown); every other tool's mid-stream error item wraps io.EOF; the tools honour their context; a quarter of them are instrumented components that fire their own callbacks",
 		Real: agentReal, Stub: agentStub,
 		Faults: []string{"tool completion order", "tool error", "tool panic", "error item mid-stream", "unknown tool name"},
 	})
